@@ -38,6 +38,9 @@ def run(ctx):
     ctx.do(rule_wrapper)
     ctx.do(rule_raw_deref)
     ctx.do(rule_check_ref_tolerant)
+    # "returns a fully validated object": a value no serialisation can write is not validated
+    from .C02 import rule_floats_finite
+    ctx.do(rule_floats_finite, rule_id="C17.wrapper")
     ctx.do(rule_optional_subscript)
     ctx.do(rule_commit_last)
     ctx.do(rule_failed_write_leaves_no_file)
